@@ -4,6 +4,7 @@ mod range;
 mod pattern;
 mod service;
 mod error;
+mod path;
 
 fn main() {
     let args: Vec<String> = std::env::args().skip(1).collect();
@@ -15,6 +16,8 @@ fn main() {
         Some("route") => service::route(&args[1..]),
         Some("meta") => service::meta(&args[1..]),
         Some("amz-date") => service::amz_date(&args[1..]),
+        Some("path-search") => path::search(),
+        Some("path") => path::one(&args[1..]),
         Some("error-table") => error::table(),
         Some("error-one") => error::one(&args[1..]),
         _ => serde_json::json!({"error": "usage: replay <range-search|range|pattern-search|pattern> …"}),
